@@ -448,7 +448,7 @@ def run(repo: Repo, rep: Report, tier: str) -> None:
     ibo = an.methods["infer_binary_op_type"]
     for c9b in calls_in(ibo.node, "error"):
         g9b = [g for g, pol in _cg9b(ibo, c9b) if pol]
-        if any("BundleValue" in g and "isinstance(" in g for g in g9b) and any("COMPARISON_OPS" in g for g in g9b):
+        if any("BundleValue" in g and "isinstance(" in g and ".left" in g for g in g9b) and any("COMPARISON_OPS" in g for g in g9b):
             central = True
     for vname, carries in (("visit_DeclStmt", "value"), ("visit_AssignStmt", "value"), ("visit_ExprStmt", "expr"), ("visit_ReturnStmt", "expr")):
         vm = an.methods.get(vname)
